@@ -1013,9 +1013,18 @@ fn scrub_builtin_overrides(c: &mut Cmd, inside_override: bool) {
         }
     }
     match c {
-        Cmd::Call(_, nm, args) if inside_override && matches!(nm, Name::True | Name::False) => {
-            *nm = Name::Colon;
-            args.clear();
+        Cmd::Call(d, nm, args)
+            if inside_override
+                && matches!(
+                    nm,
+                    Name::True | Name::False | Name::Colon | Name::Break | Name::Continue | Name::Return | Name::Exit
+                ) =>
+        {
+            // inside a function named like a built-in: no call that could reach a
+            // function of such a name again (even if the command search were wrong)
+            *d = Deco::default();
+            *nm = Name::Probe;
+            *args = vec![7000];
         }
         Cmd::Brace(l) | Cmd::Subshell(l) | Cmd::TrapExit(l) => list(l, inside_override),
         Cmd::If(c1, b, elifs, els) => {
@@ -1045,7 +1054,8 @@ fn scrub_builtin_overrides(c: &mut Cmd, inside_override: bool) {
             // have rank 0 and call no user function.  But a user function's
             // body may call `true`, which may be overridden by a function whose
             // body ... has rank 0: terminates.
-            let io = inside_override || matches!(nm, Name::True | Name::False);
+            let io = inside_override
+                || matches!(nm, Name::True | Name::False | Name::Colon | Name::Break | Name::Continue | Name::Return | Name::Exit);
             scrub_builtin_overrides(b, io);
         }
         Cmd::RedirFail(c) => scrub_builtin_overrides(c, inside_override),
